@@ -190,13 +190,18 @@ class SmtpSession(object):
         self.envelope.parse(data)
 
         results = self.handoff(self.envelope)
-        if isinstance(results[0][1], QueueError):
-            default_reply = Reply('451', '4.3.0 Error queuing message')
-            queue_reply = getattr(results[0][1], 'reply', default_reply)
-            reply.copy(queue_reply)
-        elif isinstance(results[0][1], RelayError):
-            relay_reply = results[0][1].reply
-            reply.copy(relay_reply)
+        # Queue policies may have split the message: it is accepted only if
+        # every resulting envelope was.
+        for _, result in results:
+            if isinstance(result, QueueError):
+                default_reply = Reply('451', '4.3.0 Error queuing message')
+                queue_reply = getattr(result, 'reply', default_reply)
+                reply.copy(queue_reply)
+                break
+            elif isinstance(result, RelayError):
+                relay_reply = result.reply
+                reply.copy(relay_reply)
+                break
         else:
             reply.message = '2.6.0 Message accepted for delivery'
         self._call_validator('queued', reply, results)
